@@ -411,3 +411,25 @@ pub fn query(address: &SocketAddr, timeout_settings: Option<TimeoutSettings>) ->
         unused_entries: server_vars,
     })
 }
+
+/// Verification unit ports (compiled only with `--cfg gamedig_verif`).
+#[cfg(gamedig_verif)]
+pub mod verif_unit {
+    use super::*;
+
+    pub fn data_to_map(packet: &[u8]) -> GDResult<(HashMap<String, String>, Vec<u8>)> { super::data_to_map(packet) }
+
+    pub fn parse_players_and_teams(packets: Vec<Vec<u8>>) -> GDResult<(Vec<Player>, Vec<Team>)> {
+        super::parse_players_and_teams(packets)
+    }
+
+    pub fn get_server_packets(
+        address: &SocketAddr,
+        timeout_settings: Option<TimeoutSettings>,
+    ) -> GDResult<Vec<Vec<u8>>> {
+        let mut client = GameSpy3::new(address, timeout_settings)?;
+        let r = client.get_server_packets();
+        core::mem::forget(client);
+        r
+    }
+}
